@@ -245,6 +245,8 @@ def model_stream(res, rng, tier):
         cart = int(np.prod(shape))
         jobs.append(("combine", rows, weights, cart))
         reqs.append(sx(["combine_factorizations", rows, weights, cart]))
+        jobs.append(("combine_inplace", rows, weights, cart))
+        reqs.append(sx(["combine_inplace", rows, weights, cart]))
     for t in range(n_cases):
         n = rng.randint(0, 9)
         ng = rng.randint(1, 4)
@@ -298,6 +300,14 @@ def model_stream(res, rng, tier):
             impl = (int(cutoff), [int(x) for x in codes[:cutoff]], labs)
             model = (int(r[0]), [int(x) for x in r[1]][: int(r[0])], [int(x) for x in r[2]])
             case = dict(level="model", kernel="_monotonic_factorization", chunks=chunks, kind=kind)
+        elif job[0] == "combine_inplace":
+            # the in-place model: outputs AND what the stacked matrix holds afterwards
+            _, rows, weights, cart = job
+            arr = np.array(rows, dtype="int64")
+            comb, uniq = _combine_factorizations(arr, np.array(weights, dtype="int64"), np.full(cart, -1, dtype="int32"))
+            impl = (comb.tolist(), uniq.tolist(), arr.tolist())
+            model = ([int(x) for x in r[0]], [[int(y) for y in row] for row in r[1]], [[int(y) for y in row] for row in r[2]])
+            case = dict(level="model", kernel="_combine_factorizations(in-place)", rows=rows, weights=weights)
         elif job[0] == "combine":
             _, rows, weights, cart = job
             arr = np.array(rows, dtype="int64")
